@@ -138,11 +138,16 @@ const (
 	pMatch
 	pNoMatch
 	pBadPattern
+	pErrorSubstring // Error(text) where text is only a proper substring of the actual message
+	pPrefixIsSuffix // ErrorHasPrefix(text) where text is the message's suffix
+	pSuffixIsPrefix // ErrorHasSuffix(text) where text is the message's prefix
+	pMatchAnchored  // ErrorMatch with an anchored pattern that matches only a part of the message
 	nPreds
 )
 
 var predNames = [...]string{"nil", "AnyError", "Error(equal)", "Error(different)", "ErrorHasPrefix(prefix)", "ErrorHasPrefix(no prefix)", "ErrorHasSuffix(suffix)", "ErrorHasSuffix(no suffix)",
-	"ErrorMatch(valid pattern, match)", "ErrorMatch(valid pattern, no match)", "ErrorMatch(invalid pattern)"}
+	"ErrorMatch(valid pattern, match)", "ErrorMatch(valid pattern, no match)", "ErrorMatch(invalid pattern)",
+	"Error(proper substring)", "ErrorHasPrefix(the suffix)", "ErrorHasSuffix(the prefix)", "ErrorMatch(valid anchored pattern, no match)"}
 
 type caseSpec struct {
 	Constraint int  `json:"constraint"` // 0 both, 1 OnlyMarshal, 2 OnlyUnmarshal
@@ -196,6 +201,14 @@ func buildPred(p int, script int) test.AssertErrorFunc {
 		return test.ErrorMatch(`^(boom|panic): .*scripted`)
 	case pNoMatch:
 		return test.ErrorMatch(`^never matches$`)
+	case pErrorSubstring:
+		return test.Error("scripted")
+	case pPrefixIsSuffix:
+		return test.ErrorHasPrefix("failure")
+	case pSuffixIsPrefix:
+		return test.ErrorHasSuffix("boom:")
+	case pMatchAnchored:
+		return test.ErrorMatch(`^scripted$`)
 	}
 	return test.ErrorMatch(`(unclosed`)
 }
@@ -211,7 +224,7 @@ func predHolds(p int, script int) bool {
 		return true
 	case pErrorEq:
 		return !isPanic // the panic text carries a stack trace, it never equals the plain text
-	case pErrorNe, pPrefixNe, pSuffixNe, pNoMatch, pBadPattern:
+	case pErrorNe, pPrefixNe, pSuffixNe, pNoMatch, pBadPattern, pErrorSubstring, pPrefixIsSuffix, pSuffixIsPrefix, pMatchAnchored:
 		return false
 	case pPrefixEq, pSuffixEq:
 		return true
